@@ -318,7 +318,15 @@ fn judge(case: &c13::Case, run: &c13::Run, ctx: &mut CaseCtx) {
         let n = followups.iter().filter(|f| f.0 == *name && f.1 == *qtype && f.2 >= *t && f.2 < *t + 2000).count();
         // (a host shared by several unresolved instances is asked for by each of them)
         let sharers: BTreeSet<Name> = rx.iter().filter(|x| wire::srv_of(x.2).is_some_and(|(_, h)| h.lower() == *name)).map(|x| x.2.name.lower()).collect();
-        if n > 3 * sharers.len().max(1) {
+        // (an instance reported found once more - to the channel of a browse that was issued again
+        // after a cache-only browse had ended the earlier chain - is newly found once more)
+        let found_again = d
+            .log
+            .iter()
+            .filter(|e| e.t + 2000 > *t && e.t < *t + 2000)
+            .filter(|e| matches!(&e.ev, Ev::Svc { ev: ServiceEvent::ServiceFound(_, n2), .. } if Name::from_escaped(n2).lower() == *name || sharers.contains(&Name::from_escaped(n2).lower())))
+            .count();
+        if n > 3 * sharers.len().max(1) * found_again.max(1) {
             fail!("C19/other/more-than-three-follow-ups", "{} follow-up queries for {} {} within 2 s from +{} ms", n, name.to_escaped(), type_name(*qtype), t - T0);
         }
     }
